@@ -533,6 +533,43 @@ def gen_asc(rng, wide=False):
     return r
 
 
+def zero_rich(rng):
+    """32-bit values whose big-endian bytes hold 00 00 03 / 00 00 0x at some bit alignment"""
+    return rng.choice([1, 2, 3, 1001, 3 << rng.randint(0, 8), (3 << rng.randint(0, 8)) | (rng.randrange(256) << 16 if rng.random() < 0.3 else 0),
+                       0x00000300 | rng.randrange(256), 0x03000000 >> rng.randint(0, 7)])
+
+
+def epb_prone(rng, r, kind):
+    """make the record carry timing fields that need emulation prevention (and, at the right
+    alignment, an RBSP that itself contains 00 00 03)"""
+    if kind == 264:
+        r[K(37)] = 1
+        r[K(56)] = 1
+        r[K(57)] = max(1, zero_rich(rng)) % (2 ** 31) or 1
+        r[K(58)] = zero_rich(rng)
+        r[K(59)] = flag(rng)
+    elif kind == 265:
+        r[K(175)] = 1
+        r[K(201)] = 1
+        r[K(202)] = max(1, zero_rich(rng))
+        r[K(203)] = zero_rich(rng)
+    else:
+        r[K(266)] = 1
+        r[K(267)] = zero_rich(rng)
+        r[K(268)] = zero_rich(rng)
+        r.setdefault(K(271), 0)
+    return r
+
+
+def epb_stats(ck, name, nals):
+    n = max(1, len(nals))
+    epb = sum(1 for b in nals if b"\0\0\3" in b)
+    deep = sum(1 for b in nals if b"\0\0\3\3" in b)      # the un-escaped RBSP itself contains 00 00 03
+    ck.extra.setdefault("epb", {})[name] = {"records": len(nals), "with_00_00_03": epb, "rbsp_with_00_00_03": deep}
+    if epb < 0.10 * n or deep < 0.02 * n:
+        ck.fail(name, "generator", "", note="emulation-prevention coverage too low: %d with EPB, %d with 00 00 03 in the RBSP, of %d" % (epb, deep, n))
+
+
 def rec_val(r):
     return [[k, v] for k, v in sorted(r.items())]
 
@@ -590,40 +627,42 @@ def run(ck):
               sig=sig_of("bit-reader"), sample=2)
     # ---- H.264 records
     n = 12000 if T else 1200
-    recs = [gen_h264(rng) for _ in range(n)]
+    recs = [epb_prone(rng, gen_h264(rng), 264) if rng.random() < 0.4 else gen_h264(rng) for _ in range(n)]
     nals = emit_all(ck, "C15_h264_emit", recs)
     bad = [r for r, b in zip(recs, nals) if b is None]
     if len(bad) > n // 50:
         ck.fail("h264_records", "generator", vlib.vs(rec_val(bad[0])), note="%d of %d generated H.264 records not well-ranged" % (len(bad), n))
     cases = [[rec_val(r), b] for r, b in zip(recs, nals) if b is not None]
     ck.stream("h264_records", cases, "C15_h264_run", "h264", "C15_h264_ok", sig=sig_of("h264-record"))
+    epb_stats(ck, "h264_records", [c[1] for c in cases])
     valid = [c[1] for c in cases]
-    garb = [mutate(rng, rng.choice(valid)) for _ in range(10000 if T else 1000)]
-    garb += [bytes([0x67]) + bytes(rng.randrange(256) for _ in range(rng.randint(0, 60))) for _ in range(3000 if T else 500)]
-    garb += [bytes(rng.randrange(256) for _ in range(rng.randint(0, 30))) for _ in range(1000 if T else 300)]
+    garb = [mutate(rng, rng.choice(valid)) for _ in range(10000 if T else 800)]
+    garb += [bytes([0x67]) + bytes(rng.randrange(256) for _ in range(rng.randint(0, 60))) for _ in range(3000 if T else 300)]
+    garb += [bytes(rng.randrange(256) for _ in range(rng.randint(0, 30))) for _ in range(1000 if T else 200)]
     ck.stream("h264_malformed", garb, "C15_h264_bytes", "h264b", "C15_total_ok", nontrivial=lambda c: len(c) > 4,
               sig=sig_of("h264-malformed"), sample=2)
     # glue: the same parameter sets inside a generated SDP through sdp.ParseMetadata and media.NewStream
     g = 2000 if T else 100
-    ck.stream("h264_sdp", cases[:g], "C15_h264_glue", "sdp264", "C15_h264_ok", sig=sig_of("h264-sdp"), sample=1)
-    ck.stream("h264_sdp_malformed", garb[:g], "C15_h264_glueb", "sdp264b", "C15_total_ok", nontrivial=lambda c: len(c) > 4,
+    ck.stream("h264_sdp", sorted(cases, key=lambda c: b"\0\0\3" not in c[1])[:g], "C15_h264_glue", "sdp264", "C15_glue_ok", sig=sig_of("h264-sdp"), sample=1)
+    ck.stream("h264_sdp_malformed", garb[:g], "C15_h264_glueb", "sdp264b", "C15_glue_total_ok", nontrivial=lambda c: len(c) > 4,
               sig=sig_of("h264-sdp-malformed"), sample=1)
     # ---- H.265 SPS / VPS
     n = 8000 if T else 1000
-    recs = [gen_h265(rng) for _ in range(n)]
+    recs = [epb_prone(rng, gen_h265(rng), 265) if rng.random() < 0.4 else gen_h265(rng) for _ in range(n)]
     nals = emit_all(ck, "C15_h265_emit", recs)
     cases = [[rec_val(r), b] for r, b in zip(recs, nals) if b is not None]
     if len(cases) < n * 0.98:
         bad = [r for r, b in zip(recs, nals) if b is None]
         ck.fail("h265_records", "generator", vlib.vs(rec_val(bad[0])), note="%d of %d generated H.265 SPS records not well-ranged" % (len(bad), n))
     ck.stream("h265_records", cases, "C15_h265_run", "h265", "C15_h265_ok", sig=sig_of("h265-record"))
+    epb_stats(ck, "h265_records", [c[1] for c in cases])
     valid = [c[1] for c in cases]
-    garb = [mutate(rng, rng.choice(valid)) for _ in range(8000 if T else 1200)]
-    garb += [bytes([0x42, 0x01]) + bytes(rng.randrange(256) for _ in range(rng.randint(0, 80))) for _ in range(2000 if T else 400)]
+    garb = [mutate(rng, rng.choice(valid)) for _ in range(8000 if T else 900)]
+    garb += [bytes([0x42, 0x01]) + bytes(rng.randrange(256) for _ in range(rng.randint(0, 80))) for _ in range(2000 if T else 300)]
     ck.stream("h265_malformed", garb, "C15_h265_bytes", "h265b", "C15_total_ok", nontrivial=lambda c: len(c) > 4,
               sig=sig_of("h265-malformed"), sample=2)
-    ck.stream("h265_sdp", cases[:g], "C15_h265_glue", "sdp265", "C15_h265_ok", sig=sig_of("h265-sdp"), sample=1)
-    ck.stream("h265_sdp_malformed", garb[:g], "C15_h265_glueb", "sdp265b", "C15_total_ok", nontrivial=lambda c: len(c) > 4,
+    ck.stream("h265_sdp", sorted(cases, key=lambda c: b"\0\0\3" not in c[1])[:g], "C15_h265_glue", "sdp265", "C15_h265_glue_ok", sig=sig_of("h265-sdp"), sample=1)
+    ck.stream("h265_sdp_malformed", garb[:g], "C15_h265_glueb", "sdp265b", "C15_glue_total_ok", nontrivial=lambda c: len(c) > 4,
               sig=sig_of("h265-sdp-malformed"), sample=1)
     # D30 (known finding): the last short-term RPS predicted from the previous one — valid per 7.3.7
     irecs = []
@@ -652,17 +691,18 @@ def run(ck):
     if len(icases) < len(irecs) * 0.9:
         ck.fail("h265_inter_rps", "generator", "", note="inter-RPS witnesses not well-ranged")
     ck.stream("h265_inter_rps", icases, "C15_h265_run", "h265", "C15_h265i_ok",
-              sig=lambda c, e, o: "h265-inter-rps" if o == "(0)" and e == o else "h265-inter-rps:other")
+              sig=lambda c, e, o: "h265-inter-rps" if o.startswith("((0) ") and e == o else "h265-inter-rps:other")
     n = 5000 if T else 700
-    recs = [gen_vps(rng) for _ in range(n)]
+    recs = [epb_prone(rng, gen_vps(rng), 0) if rng.random() < 0.4 else gen_vps(rng) for _ in range(n)]
     nals = emit_all(ck, "C15_vps_emit", recs)
     cases = [[rec_val(r), b] for r, b in zip(recs, nals) if b is not None]
     if len(cases) < n * 0.98:
         bad = [r for r, b in zip(recs, nals) if b is None]
         ck.fail("vps_records", "generator", vlib.vs(rec_val(bad[0])), note="%d of %d generated VPS records not well-ranged" % (len(bad), n))
     ck.stream("vps_records", cases, "C15_vps_run", "vps", "C15_vps_ok", sig=sig_of("vps-record"))
+    epb_stats(ck, "vps_records", [c[1] for c in cases])
     valid = [c[1] for c in cases]
-    garb = [mutate(rng, rng.choice(valid)) for _ in range(5000 if T else 800)]
+    garb = [mutate(rng, rng.choice(valid)) for _ in range(5000 if T else 600)]
     garb += [bytes([0x40, 0x01]) + bytes(rng.randrange(256) for _ in range(rng.randint(0, 60))) for _ in range(1500 if T else 300)]
     ck.stream("vps_malformed", garb, "C15_vps_bytes", "vpsb", "C15_vps_total_ok", nontrivial=lambda c: len(c) > 4,
               sig=sig_of("vps-malformed"), sample=2)
@@ -694,10 +734,10 @@ def run(ck):
     if len(wcases) < len(wrecs) * 0.9:
         ck.fail("asc_als_wide", "generator", "", note="wide ALS witnesses not well-ranged")
     ck.stream("asc_als_wide", wcases, "C15_asc_run", "asc", "C15_asc_wide_ok",
-              sig=lambda c, e, o: "asc-als-wide-channels" if e == o and o.startswith("(1 ") else "asc-als-wide:other")
+              sig=lambda c, e, o: "asc-als-wide-channels" if e == o and o.startswith("((1 ") else "asc-als-wide:other")
     valid = [c[1] for c in cases]
-    garb = [mutate(rng, rng.choice(valid)) for _ in range(8000 if T else 1200)]
-    garb += [bytes(rng.randrange(256) for _ in range(rng.randint(0, 24))) for _ in range(4000 if T else 600)]
+    garb = [mutate(rng, rng.choice(valid)) for _ in range(8000 if T else 900)]
+    garb += [bytes(rng.randrange(256) for _ in range(rng.randint(0, 24))) for _ in range(4000 if T else 400)]
     # ALS (AOT 36) configurations, well-formed and damaged
     for _ in range(1500 if T else 300):
         bits = "11111" + format(36 - 32, "06b") + format(rng.randrange(13), "04b") + format(rng.randrange(8), "04b") + "00000"
@@ -709,7 +749,7 @@ def run(ck):
         garb.append(cfg if rng.random() < 0.6 else mutate(rng, cfg))
     ck.stream("asc_malformed", garb, "C15_asc_bytes", "ascb", "C15_asc_total_ok", nontrivial=lambda c: len(c) > 1,
               sig=sig_of("asc-malformed"), sample=2)
-    ck.stream("aac_sdp", (valid + garb)[:2 * g], "C15_sdpaac", "sdpaac", "C15_asc_total_ok", nontrivial=lambda c: len(c) > 1,
+    ck.stream("aac_sdp", (valid + garb)[:2 * g], "C15_sdpaac", "sdpaac", "C15_aac_glue_ok", nontrivial=lambda c: len(c) > 1,
               sig=sig_of("aac-sdp"), sample=1)
     # ---- emulation prevention and the float quotient on their own
     esc = [bytes(rng.choice([0, 0, 0, 1, 2, 3, 3, 4, 255]) for _ in range(rng.randint(0, 12))) for _ in range(4000 if T else 500)]
@@ -728,9 +768,14 @@ def run(ck):
              "configuration), channelConfiguration 0 with PCE bits, hierarchical SBR/PS and the 0x2b7/0x548 sync extensions "
              "(each class required >= 10 times per run); ue/se values log-uniform over all code lengths. Each record is encoded by the Gallina "
              "emit of the standard's syntax (run in the driver, the function in the theorems), NAL-wrapped with rbsp trailing "
-             "bits and emulation prevention, and decoded by the real decoder; oracle = the proved ok_* (reported values = the "
-             "standard's derived-value formulas); non-trivial = record well-ranged (emit succeeded; >98% required). The same "
-             "parameter sets travel inside a generated SDP through sdp.ParseMetadata and media.NewStream. Malformed: bit flips, "
+             "bits and emulation prevention, and decoded by the real decoder. Every parser entry point (Decode and the MetadataIsReady shortcut) is called "
+             "on the case's bytes placed in a long-lived backing array shared by consecutive cases, with 8 guard bytes inside "
+             "the slice's capacity; observed = (first result, backing array after both calls, second result). Oracle = the "
+             "proved pure_ok . ok_*: buffer and guard unchanged, second result = first, reported values = the standard's "
+             "derived-value formulas; >= 10% of the NAL records must need emulation prevention and >= 2% must have an RBSP "
+             "that itself contains 00 00 03 (quick tier: ~70-90% / ~15-20%); non-trivial = record well-ranged (emit succeeded; >98% required). The same "
+             "parameter sets (EPB-bearing ones first) travel inside a generated SDP through sdp.ParseMetadata and media.NewStream: "
+             "the stream's stored Sps/Vps/Pps must be the bytes sent and a second consumer's parse must agree. Malformed: bit flips, "
              "truncations, splices, inserted 00/03 bytes, random and ALS configurations, compared (error/no-error and values) "
              "against the model of the Go decoder; plus bit reader, emulation-prevention removal and float quotient directly.",
         trusted=["float64(uint32)/float64(uint32) is the correctly rounded quotient (f64_div_bits, compared with the hardware every run)",
